@@ -76,6 +76,33 @@ Proof.
       repeat split; try discriminate; lia.
 Qed.
 
+(* K18: outside the class (invalid body framing that nobody reads) a request
+   that is malformed on the wire is refused ... *)
+Lemma wire_malformed_refused_outside_k18 m fr a :
+  framing_consistent fr a = true -> k18_class fr a = false ->
+  wire_malformed fr a = true ->
+  exists s, respond m a = Resp s true /\ 400 <= s < 500.
+Proof.
+  unfold wire_malformed, k18_class, framing_consistent. intros Hc Hk Hw.
+  apply malformed_is_refused.
+  destruct (malformed a) eqn:Hm; [reflexivity|]. cbn [orb] in Hw.
+  apply negb_true_iff in Hw. subst fr. cbn [negb andb] in Hk.
+  apply negb_false_iff in Hk.
+  unfold malformed in Hm. apply orb_false_iff in Hm as [_ Hb]. apply negb_false_iff in Hb.
+  destruct (a_body a) as [|f c s0 k mm p|f c| | |]; cbn [extractor_reads_body] in Hk; try discriminate.
+  - apply Bool.eqb_prop in Hc. subst f. cbn [body_ok andb] in Hb. discriminate.
+  - apply Bool.eqb_prop in Hc. subst f. cbn [body_ok andb] in Hb. discriminate.
+Qed.
+
+(* ... and inside it is not: the handler runs and its 200 is sent *)
+Lemma k18_refuted m :
+  exists fr a, framing_consistent fr a = true /\ handler_wf (a_handler a) = true /\
+               wire_malformed fr a = true /\ respond m a = Resp 200 false.
+Proof.
+  exists false, (AR true true RouteFound [] BNone (HOk 200)).
+  destruct m; repeat split.
+Qed.
+
 (* ================================================================== *)
 (* 2. one connection                                                    *)
 (* ================================================================== *)
